@@ -73,6 +73,28 @@ Verdict run(const Ctx & x, const Case & c)
     if (rb2->configs() != got || rb2->dump() != st->dump()) {
         return std::string("a field built from (own configuration, the backend's owning data) differs from the original");
     }
+    if (arr >= 1 && !c.ext.empty()) {
+        // a field of the same type with larger extents, then copy-assigned from this one: what it reports afterwards
+        // is this field's configuration (not a mixture with what it held before)
+        const model::Layer & O = d.layers[arr - 1];
+        Case big = c;
+        uint64_t cells = 1;
+        for (size_t a = 0; a < O.N; ++a) {
+            big.ext[a] = c.ext[a] + 2;
+            cells *= big.ext[a];
+        }
+        big.ext.resize(O.N);
+        big.cfg[arr - 1].assign(big.ext.begin(), big.ext.end());
+        big.data.assign(cells * O.M, 0);
+        std::unique_ptr<zoo::IStack> other = x.f->build(big.cfg, big.ext, big.data);
+        other->copy_assign(*st);
+        if (other->configs() != got) {
+            return std::string("after copy assignment over a larger field, the reported configurations differ from the source's");
+        }
+        if (other->dump() != st->dump()) {
+            return std::string("after copy assignment over a larger field, the dump differs from the source's");
+        }
+    }
     std::unique_ptr<zoo::IStack> rb3 = st->rebuild_cfg_backend();
     if (rb3->configs() != got || rb3->dump() != st->dump()) {
         return std::string("owning data constructed from (configuration, backend owning data &&) reports a different configuration than it was given");
